@@ -190,7 +190,7 @@ func NewAbsHist(r *rand.Rand, allowCustom bool) *AbsHist {
 func (a *AbsHist) Mutate(r *rand.Rand) *AbsHist {
 	n := a.Clone()
 	grow := func(m map[int32]uint64) {
-		for k := range m {
+		for _, k := range sortedKeys(m) { // sorted: map order must not influence the PRNG stream
 			if r.IntN(2) == 0 {
 				m[k] += uint64(r.IntN(5))
 			}
@@ -198,7 +198,8 @@ func (a *AbsHist) Mutate(r *rand.Rand) *AbsHist {
 	}
 	switch r.IntN(20) {
 	case 0: // reset: shrink a bucket or drop one
-		for k, v := range n.Pos {
+		for _, k := range sortedKeys(n.Pos) {
+			v := n.Pos[k]
 			if v > 0 {
 				n.Pos[k] = v - 1 - uint64(r.Int64N(int64(v)))
 				break
